@@ -269,4 +269,50 @@ example : IsSchedule [mk 1 .dm [0, 1] [0] [1], mk 2 .cp [2, 3] [2] [3]]
 example : (proj Core.cpc [Ev.op (mk 2 .dm [0, 1] [0] [1]), Ev.sync, Ev.op (mk 3 .cp [1, 2] [1] [2]), Ev.sync]).filter isSync
     = [Ev.sync, Ev.sync] := by decide
 
+/-! ## `snax-to-func`: the barriers in the code that runs
+
+The pass replaces every `snax.cluster_sync_op` by one `func.call @snax_cluster_hw_barrier` at the same position
+(the constructor `sync` stands for both) and erases every `memref.dealloc` (`lowerB`). -/
+
+/-- Generic: erasing operations that are not barriers (any choice `keep` of what stays) keeps every
+barrier separation of an execution. -/
+theorem erase_keeps_separation (keep : Leaf → Bool) (t : List Ev) (h : Separated t) :
+    Separated (t.filter (fun e => match e with | .sync => true | .op l => keep l)) :=
+  separated_filter keep t h
+
+/-- Every execution of the lowered code is an execution of the code before `snax-to-func` (same branch outcomes,
+same trip counts) with the deallocs erased and every barrier kept; if that execution was barrier-separated, so is
+the lowered one. -/
+theorem snax_to_func_preserves (q : Blk) (hk : CompoundKept q) (t' : List Ev) (hr : Run (lowerB q) t') :
+    ∃ t, Run q t ∧ t' = lowerT t ∧ (Separated t → Separated t') := by
+  obtain ⟨t, h1, h2⟩ := lower_run q t' hk hr
+  exact ⟨t, h1, h2, fun hs => h2 ▸ separated_lowerT t hs⟩
+
+/-- `insert-sync-barrier` followed by `snax-to-func`: the code that runs is barrier-separated on every path. -/
+theorem C13_lowered_partial (p : Blk) (hwf : WF p) (hk : CompoundKept p) (hssa : SsaVisible p)
+    (hbe : BackEdgeSiblings p)
+    (hg : ∀ t, Run (insertBarriers true p) t → NoGlobalBeforeSingleCoreWrite t)
+    (t' : List Ev) (hr : Run (lowerB (insertBarriers true p)) t') : Separated t' := by
+  obtain ⟨t, h1, _, h3⟩ := snax_to_func_preserves (insertBarriers true p)
+    (walk_compoundKept true _ p _ _ hk) t' hr
+  exact h3 (C13_structured_partial p hwf hssa hbe t h1 (hg t h1))
+
+/-- producer on the DMA core, consumer on the compute core, the buffer freed, the result copied out:
+`copy %0 -> %4 ; generic ins(%4) outs(%2) ; dealloc %4 ; copy %2 -> %3` -/
+def pDealloc : Blk :=
+  .leaf (mk 1 .dm [0, 4] [0] [4]) (.leaf (mk 2 .cp [2, 4] [4] [2])
+    (.leaf { id := 3, cls := .all, vals := [4], reads := [], writes := [4], dealloc := true }
+      (.leaf (mk 4 .dm [2, 3] [2] [3]) .nil)))
+
+/-- the barrier that `insert-sync-barrier` places in front of the dealloc is the only one between the compute
+operation and the copy-out; the lowering erases the dealloc and keeps that barrier -/
+example : lowerB (insertBarriers true pDealloc) =
+    .leaf (mk 1 .dm [0, 4] [0] [4]) (.sync (.leaf (mk 2 .cp [2, 4] [4] [2])
+      (.sync (.leaf (mk 4 .dm [2, 3] [2] [3]) .nil)))) ∧ CompoundKept pDealloc ∧ (idsB pDealloc).Nodup := by
+  refine ⟨by decide, by simp [pDealloc, CompoundKept], by decide⟩
+
+example : lowerT [Ev.op (mk 1 .dm [0, 4] [0] [4]), Ev.sync,
+      Ev.op { id := 3, cls := .all, vals := [4], reads := [], writes := [4], dealloc := true }, Ev.sync] =
+    [Ev.op (mk 1 .dm [0, 4] [0] [4]), Ev.sync, Ev.sync] := by decide
+
 end SnaxVerif.C13
